@@ -136,6 +136,11 @@ Proof.
 Qed.
 Print Assumptions C04_rows_live_partial.
 
+(* at most one attribute record per identifier, in every state reached by any history (attributes_keys has no duplicate) *)
+Theorem C04_records_unique : forall ops s, reaches ops s -> NoDup (map a_id (recs s)).
+Proof. intros ops s [_ Hlast]. exact (run_uniq ops init s (NoDup_nil nat) Hlast). Qed.
+Print Assumptions C04_records_unique.
+
 (* every "Property:<name>" key of a hole record names a data record of that name *)
 Definition keys_named (s : astate) : Prop :=
   forall rh lab d, In rh (recs s) -> a_kind rh = KHole -> In (lab, d) (a_props rh) ->
